@@ -29,10 +29,10 @@ def writes : Act → List Nat
   | .move d t => [d, t]
   | .swap a b => [a, b]
   | .setInl d _ _ => [d]
-  | .incE t _ _ => [t]
-  | .takeE t c _ => [t, embSlot c]
-  | .putE c t _ => [embSlot c, t]
-  | .takeF t c => [t, embSlot c]
+  | .incE t _ _ _ => [t]
+  | .takeE t c k _ => [t, embSlotK c k]
+  | .putE c k t _ => [embSlotK c k, t]
+  | .takeF t c k => [t, embSlotK c k]
   | _ => []
 
 theorem astep_slots_frame {s s' : St} {tid x : Nat} {a : Act} (hs : astep s tid a = some s') (hx : x ∉ writes a) :
